@@ -65,6 +65,11 @@ func (c18) Plan(tier string, seed int64) []core.Scenario {
 		out = append(out, core.Sc("stateless").WithS("transport", "http").WithN("i", i))
 		out = append(out, core.Sc("stateless").WithS("transport", "custom").WithN("i", i))
 	}
+	// the closer fires inside the reconnect window and the tail of the exit path is slow: a redial that
+	// wakes from its backoff right then must not start any more
+	for _, pt := range []string{"ws.reconn.begin", "ws.reconn.chansClosed", "ws.closechans.each"} {
+		out = append(out, core.Sc("closeat").WithS("point", pt).WithN("occ", 1).WithN("exitstall", 1))
+	}
 	// the peer has stopped reading: a large request is stuck in write(2) when the closer is invoked
 	out = append(out, core.Sc("stalled-write").WithN("mb", 32))
 	// a subscription with tens of thousands of unread values when the closer is invoked
@@ -143,6 +148,9 @@ func (c18) closeAt(sc core.Scenario, r *core.R) {
 				close(closed)
 			}()
 		})
+	}
+	if sc.I("exitstall") == 1 {
+		pol.Rules = append(pol.Rules, &core.Rule{Point: "ws.exit.end", Side: 1, Do: func(jsonrpc.VerifEvent) { time.Sleep(60 * time.Millisecond) }})
 	}
 	if point != "idle" {
 		side := 1
@@ -242,7 +250,7 @@ func (c18) closeAt(sc core.Scenario, r *core.R) {
 	if !core.WaitCh(closed, core.Grace) {
 		r.Violate("closer-hang", "%s: the closer did not return; events: %s", where, core.Log.Tail(40))
 		env.Svc.ReleaseAll()
-		r.Key(fmt.Sprintf("%s#%d fired=%v", point, occ, triggerFired), true)
+		r.Key(fmt.Sprintf("%s#%d fired=%v exitstall=%d", point, occ, triggerFired, sc.I("exitstall")), true)
 		return
 	}
 	mu.Lock()
